@@ -142,6 +142,18 @@ class Graph:
             raise TypeError
         return G
 
+    @classmethod
+    def complete_graph(cls, n):
+        g = cls(n)
+        for u in range(1, n + 1):
+            for v in range(u + 1, n + 1):
+                g.add_edge(u, v)
+        return g
+
+    @classmethod
+    def empty_graph(cls, n):
+        return cls(n)
+
     def add_edge(self, u, v):
         if not (1 <= u <= self.n and 1 <= v <= self.n and u != v):
             raise ValueError
